@@ -37,7 +37,8 @@ FRAMES = ["do", "c:a", "c:one", "c:list", "c:null", "c:ERROR", "c:var",
           "c:b|c:a", "c:a|all", "c:onef+fin", "c:mapsup|c:map",
           "c:set12|c:list", "c:eo", "func", "funcargs", "for",
           "while", "for:set", "for:map", "for:str", "for:input",
-          "cb:input", "cb:list", "eval:str", "eval:node", "while:nb"]
+          "cb:input", "cb:list", "eval:str", "eval:node", "while:nb",
+          "interp", "func:retfin"]
 # what the loop frames iterate (two iterations each); an input stream is a
 # sequence of lines
 ITERABLES = {
@@ -127,6 +128,27 @@ class Builder:
             return [("def", "fn%d" % i, ("fn", [], ("seq", body +
                                                    [L("ret%d" % i)])),
                      True),
+                    ("log", ("list", [L("called%d" % i),
+                                      ("call", V("fn%d" % i), [])]))]
+        if f == "interp":
+            # the body runs in a function called from a placeholder of an
+            # interpolated string
+            return [("def", "fn%d" % i, ("fn", [], ("seq", body +
+                                                   [L("ret%d" % i)])),
+                     True),
+                    ("log", ("list", [L("interp%d" % i),
+                                      ("sinterp",
+                                       ("call", V("fn%d" % i), []))]))]
+        if f == "func:retfin":
+            # a function whose whole body is `do return <call> finally ...
+            # end`: the finally part runs once, on return and on failure
+            return [("def", "in%d" % i, ("fn", [], ("seq", body +
+                                                   [L("ret%d" % i)])),
+                     True),
+                    ("def", "fn%d" % i,
+                     ("fn", [], ("block",
+                                 [("return", ("call", V("in%d" % i), []))],
+                                 [], [("log", L("f%d" % i))])), True),
                     ("log", ("list", [L("called%d" % i),
                                       ("call", V("fn%d" % i), [])]))]
         if f == "funcargs":
